@@ -264,7 +264,14 @@ impl Router {
             Event::NewAlert(tx) => self.handle_new_alert(tx),
             Event::DeviceData => self.handle_device_payload(id),
             Event::Disconnect => self.handle_disconnection(id, None),
-            Event::Ready => self.scheduler.reschedule(id, ScheduleReason::Ready),
+            Event::Ready => {
+                // the link may signal readiness after the router closed its connection
+                if self.scheduler.trackers.contains(id) {
+                    self.scheduler.reschedule(id, ScheduleReason::Ready)
+                } else {
+                    error!("no-connection id {} is already gone", id);
+                }
+            }
             Event::Shadow(request) => {
                 retrieve_shadow(&mut self.datalog, &mut self.obufs[id], request)
             }
